@@ -85,7 +85,6 @@ use flate2::{Compression as GzCompression, write::GzEncoder};
 use regex::Regex;
 use serde::{Serialize, de::DeserializeOwned};
 use std::io::{BufRead, BufReader, Write};
-use std::path::Path;
 #[cfg(feature = "compression-xz")]
 use xz2::write::XzEncoder;
 #[cfg(feature = "compression-zstd")]
@@ -234,10 +233,7 @@ where
 {
     // Determine the compression format from the file extension
     let key_lower = key.to_lowercase();
-    let extension = Path::new(&key_lower).extension();
-    let final_buffer = if extension
-        .is_some_and(|ext| ext.eq_ignore_ascii_case("gz") || ext.eq_ignore_ascii_case("gzip"))
-    {
+    let final_buffer = if key_lower.ends_with(".gz") || key_lower.ends_with(".gzip") {
         #[cfg(feature = "compression-gzip")]
         {
             compress_jsonl_gzip(data, bucket, key)?
@@ -251,9 +247,7 @@ where
                 ),
             ));
         }
-    } else if extension
-        .is_some_and(|ext| ext.eq_ignore_ascii_case("zst") || ext.eq_ignore_ascii_case("zstd"))
-    {
+    } else if key_lower.ends_with(".zst") || key_lower.ends_with(".zstd") {
         #[cfg(feature = "compression-zstd")]
         {
             compress_jsonl_zstd(data, bucket, key)?
@@ -267,9 +261,7 @@ where
                 ),
             ));
         }
-    } else if extension
-        .is_some_and(|ext| ext.eq_ignore_ascii_case("bz2") || ext.eq_ignore_ascii_case("bzip2"))
-    {
+    } else if key_lower.ends_with(".bz2") || key_lower.ends_with(".bzip2") {
         #[cfg(feature = "compression-bzip2")]
         {
             compress_jsonl_bzip2(data, bucket, key)?
@@ -283,7 +275,7 @@ where
                 ),
             ));
         }
-    } else if extension.is_some_and(|ext| ext.eq_ignore_ascii_case("xz")) {
+    } else if key_lower.ends_with(".xz") {
         #[cfg(feature = "compression-xz")]
         {
             compress_jsonl_xz(data, bucket, key)?
